@@ -119,3 +119,9 @@ package response
 //@   ensures #failed-on-parse-error-1.1 r.NetconfVersion == "1.1" && parseErr11 ==> r.Failed != nil
 //@   ensures #failed-on-payload-error-1.1 r.NetconfVersion == "1.1" && !parseErr11 && containsAnyB(payload11, r.FailedWhenContains) ==> r.Failed != nil
 //@   ensures #not-failed-otherwise-1.1 r.NetconfVersion == "1.1" && !parseErr11 && !containsAnyB(payload11, r.FailedWhenContains) && !containsAnyB(b, r.FailedWhenContains) ==> r.Failed == nil
+
+// ---- C13: the joined result of a multi response is its members' results, in order, one per line ------------------------------
+//@ func (*MultiResponse).JoinedResult [C13]
+//@   modifies alloc()
+//@   at call! Join#1 assert #the-members-results-in-order-joined-by-newlines arg1 == "\n" && len(arg0) == len(mr.Responses) && (forall k int :: 0 <= k && k < len(arg0) ==> arg0[k] == mr.Responses[k].Result)
+//@   loop 1 invariant -1 <= rangeindex && rangeindex < len(mr.Responses) && len(resultsSlice) == len(mr.Responses) && (forall k int :: 0 <= k && k <= rangeindex ==> resultsSlice[k] == mr.Responses[k].Result)
